@@ -35,7 +35,7 @@ func (c *Collector) IncrementCounter(n string, d uint64) {
 	c.mu.Unlock()
 }
 func (c *Collector) SetGauge(n string, v uint64) { c.mu.Lock(); c.M[n] = v; c.mu.Unlock() }
-func (c *Collector) Get(n string) uint64        { c.mu.Lock(); defer c.mu.Unlock(); return c.M[n] }
+func (c *Collector) Get(n string) uint64         { c.mu.Lock(); defer c.mu.Unlock(); return c.M[n] }
 
 // FaultStore wraps the underlying store: at-rest corruption on GetLog and
 // injected errors.
@@ -98,7 +98,7 @@ type Node struct {
 	Faulty  *FaultStore
 	V       *verifier.LogStore
 	Col     *Collector
-	Truth   *model.Log            // what the store holds (harness copy)
+	Truth   *model.Log           // what the store holds (harness copy)
 	Written map[uint64]*raft.Log // what was last passed to this node's StoreLogs for each index
 	mu      sync.Mutex
 	reports []verifier.VerificationReport
